@@ -1,4 +1,5 @@
 """C09: iterating while the store changes never skips, repeats or resurrects a record."""
+import time
 from vlib import common as C
 from vlib.diff import Case, differential
 from checks import kvgen as G, c01
@@ -42,7 +43,7 @@ def gen_history(r, nops):
         elif x < 0.30 + wdel:
             ops.append("del 1 %s %d" % (G.H(k), c))
         elif x < 0.85:
-            ops += ["cur %d to %s" % (ci, r.choice(["next", "next", "next", "prev"])), "cur %d key" % ci]
+            ops += ["cur %d to %s" % (ci, r.choice(["next", "next", "prev", "prev"])), "cur %d key" % ci]
         elif x < 0.91:
             ops.append("cur %d del" % ci)
         elif x < 0.94:
@@ -80,10 +81,13 @@ def make_case(r, nops):
 def shrink(h, ops, cls=None):
     head = [l for l in ops if l.split()[0] in ("open", "db")]
     body = [l for l in ops if l.split()[0] not in ("open", "db", "close")]
+    deadline = time.time() + 90
 
     def fails(sub):
         o2 = head + sub + ["close"]
-        rc, o, e = C.run_lines([h, C.scratch() + "/kv9-shrink.db"], o2, timeout=60)
+        if time.time() > deadline:
+            return False
+        rc, o, e = C.run_lines_stall([h, C.scratch() + "/kv9-shrink.db"], o2, timeout=30, stall=5)
         if rc != 0 or len(o) < len(o2):
             return False
         m = judge(o2, o)
@@ -133,7 +137,7 @@ def run(ctx):
     else:
         explore(ctx, h, drv, 1200, 400, "main")
         explore(ctx, h, drv, 20, 8000, "long")
-    if ctx.proof_broken or ctx.corr_broken:
+    if (ctx.proof_broken or ctx.corr_broken) and not ctx.violations:
         explore(ctx, h, drv, 150, 300, "search")
 
 
